@@ -28,7 +28,7 @@ REAL = ['py4hw.simulation.Simulator._clk_cycle (enable test, per-driver clockAll
         'py4hw.logic.clock.GatedClock', 'sequential library blocks']
 STUB = ['stimulus']
 ASSUMPTIONS = ['reference models of dsim/catalog.py']
-PROBES = ['disabled_edge', 'enabled_edge', 'self_gated', 'cross_domain_enable', 'wide_enable', 'nested_driver', 'gatedclock_idiom', 'single_cycle_stall', 'long_stall']
+PROBES = ['driver_on_block', 'top_driver_gated', 'enable_attached_late', 'disabled_edge', 'enabled_edge', 'self_gated', 'cross_domain_enable', 'wide_enable', 'nested_driver', 'gatedclock_idiom', 'single_cycle_stall', 'long_stall']
 
 
 def gen(rs, tier, index):
@@ -61,6 +61,23 @@ def gen(rs, tier, index):
         gd[g] = {'name': rng.choice(['gclk', 'clk_' + g.replace('/', '_')]), 'en': en,
                  'idiom': 'gatedclock' if (en and rng.random() < 0.3) else 'enable', 'mode': mode if en else 'none'}
     d['group_driver'] = gd
+    # drivers placed directly on blocks (structural library blocks and clockable leaves such as Reg)
+    nd = {}
+    for n2 in d['nodes']:
+        if KINDS[n2['kind']].seq and rng.random() < 0.12:
+            w = rng.choice([1, 1, 2])
+            nm = 'i%d' % len(d['inputs'])
+            d['inputs'].append({'name': nm, 'w': w, 'role': 'enable'})
+            nd[str(n2['id'])] = {'name': 'clk_n%d' % n2['id'], 'en': nm, 'idiom': rng.choice(['enable', 'late_enable']), 'mode': 'input'}
+    if nd:
+        d['node_driver'] = nd
+    for g in gd:
+        if gd[g]['en'] and gd[g]['idiom'] == 'enable' and rng.random() < 0.25:
+            gd[g]['idiom'] = 'late_enable'
+    if rng.random() < 0.15:
+        nm = 'i%d' % len(d['inputs'])
+        d['inputs'].append({'name': nm, 'w': 1, 'role': 'enable'})
+        d['top_enable'] = nm              # the top-level driver gated through an enable attached after construction
     order = list(d['order'])
     if rng.random() < 0.5:
         rng.shuffle(order)
@@ -102,7 +119,7 @@ def run(scn, log, st):
     d = scn['design']
     gd = d['group_driver']
     log.add('design', h64(repr(sorted((n['id'], n['kind'], tuple(n['ins']), tuple(n['grp'])) for n in d['nodes']))), repr(sorted(gd.items())))
-    for g, dv in gd.items():
+    for g, dv in list(gd.items()):
         if dv['mode'] == 'self':
             st.probe('self_gated')
         if dv['mode'] == 'reg':
@@ -119,6 +136,15 @@ def run(scn, log, st):
     ref.settle()
     seqnodes = [n for n in d['nodes'] if KINDS[n['kind']].seq]
     dom_has_seq = {netlist.node_domain(d, n) for n in seqnodes}
+    gd = dict(gd)
+    for nid2, dv in (d.get('node_driver') or {}).items():
+        gd['node:%s' % nid2] = dv
+        st.probe('driver_on_block')
+    if d.get('top_enable'):
+        gd[''] = {'en': d['top_enable'], 'mode': 'input', 'idiom': 'late_enable'}
+        st.probe('top_driver_gated')
+    if any(dv.get('idiom') == 'late_enable' for dv in gd.values()):
+        st.probe('enable_attached_late')
     seen_en, seen_dis = set(), set()
     run_len = {}
     for si, step in enumerate(scn['steps'], 1):
